@@ -98,8 +98,6 @@ def run(tier, seed):
     n = 0
     for s1, s2 in itertools.product(shapes, repeat=2):
         n += 1
-        if tier == 'quick' and n % 3 and s1[0] != 'datetime' and s2[0] != 'datetime':
-            continue
         aa = sorted({attr_of(s1), attr_of(s2)})
         ev = _catalog_for(aa)
         T.run('catalog_filter', {'events': ev, 'statements': [text(s1), text(s2)], 'container': 'list' if n % 2 else 'tuple',
@@ -123,7 +121,7 @@ def run(tier, seed):
                       key=('multi', tuple(st), in_place, len(cat)))
     T.run('catalog_filter', {'events': ev[:3], 'statements': [], 'container': 'list', 'in_place': False}, key=('no statements',))
     # ---- datetime <-> origin_time at millisecond resolution: every ms of a window, directed instants
-    window = range(0, 1200) if tier == 'quick' else range(0, 20000)
+    window = range(0, 3000) if tier == 'quick' else range(0, 30000)
     directed = [-1, -1000, -1001, -86400001, 951782400000 + 1, 951782399999, 1078012800123, 1230767999999, 1230768000000,
                 1262304000001, 1583020800001, 4102444800000 - 1, 1001, 1002, 1009, 2049, 16385, 1262304000009, 1262304000017,
                 1262304000033, 1262304000065, 1262304000513, 1262304001001, 1262304002049]
@@ -142,7 +140,7 @@ def run(tier, seed):
         T.run('grid_catalog', {'lattice': lat, 'points': [[-117.55, 35.65], [-117.35, 35.65], [-117.55, 35.65], [-110.0, 35.65], [-117.5, 35.7]],
                                'in_place': in_place}, key=('spatial-directed', in_place))
     return T.result(bound='25 attribute shapes x 5 catalogs (empty, 1, 3 on/below/above the threshold, reversed, duplicates) x str/list/tuple x in_place x via; '
-                          '5 datetime shapes x 4 spellings; %s ordered pairs of the 30 shapes on 3^k-event catalogs; %d longer statement lists; '
+                          '5 datetime shapes x 4 spellings; all %d ordered pairs of the 30 shapes on 3^k-event catalogs; %d longer statement lists; '
                           'datetime vs origin_time on every millisecond of [0, %d) + %d directed + %d random instants'
-                          % ('1/3 of the' if tier == 'quick' else 'all', len(triples), len(window), len(directed), len(rnd)),
+                          % (len(shapes) ** 2, len(triples), len(window), len(directed), len(rnd)),
                     exhaustive_part=True)
